@@ -190,8 +190,11 @@ var (
 	mem1         runtime.MemStats
 )
 
+var measuring bool
+
 func m0() {
 	if MeasureAlloc {
+		measuring = true
 		runtime.ReadMemStats(&mem0)
 	}
 }
@@ -200,6 +203,7 @@ func m1() {
 	if MeasureAlloc {
 		runtime.ReadMemStats(&mem1)
 		AllocDelta = mem1.TotalAlloc - mem0.TotalAlloc
+		measuring = false
 	}
 }
 
@@ -411,7 +415,9 @@ var Entries = []*Entry{
 	{Name: "imagetype.Buf", Call: func(env *Env, r *world.SimReader, res *Result) {
 		// the slice seam: the device hands over whatever it holds up to its end point
 		b, _ := io.ReadAll(r)
+		m0()
 		t, err := imagetype.Buf(b)
+		m1()
 		setType(res, t, err)
 	}},
 }
@@ -438,9 +444,14 @@ func EntryByName(n string) *Entry {
 // recover is a normal return and is not seen here.
 func Invoke(e *Entry, env *Env, r *world.SimReader) (res *Result) {
 	res = &Result{}
+	AllocDelta = 0
+	measuring = false
 	defer func() {
 		if p := recover(); p != nil {
 			res.Panic = analysePanic(p)
+			if measuring {
+				m1() // the call panicked inside the measured window
+			}
 		}
 	}()
 	e.Call(env, r, res)
